@@ -49,6 +49,7 @@ type Flags struct {
 	DeepLoops                      bool // loop nesting up to 6 instead of 3
 	Shadow                         bool // loop variables / params reuse outer names
 	BigInts                        bool
+	LoopValues                     bool // loops used for their value / returning the bare loop variable
 	SafeCompact                    bool // no bare-expression or ++/-- statements (their compact printed form glues to the next statement: recorded finding)
 	FloatNoAssoc                   bool // float arithmetic only with - and / (the printer regroups a+(b+c) and a*(b*c): recorded finding)
 	NoIndexAssign                  bool // no xs[i]=v / m.k=v / del(m.k): in-place mutation of large containers is a recorded C06 finding
@@ -63,7 +64,7 @@ func SwarmFlags(r *core.Rng) Flags {
 		Slicing: b(.4), IncDec: b(.6), PrintInFuncs: b(.6), Catch: b(.3),
 		NonDet: b(.3), GlobalWrites: b(.4), GlobalReads: b(.6), Redefine: b(.3),
 		SameTextClosures: b(.3), Lambdas: b(.6), Comments: b(.2), Consts: b(.5),
-		Shadow: b(.4), BigInts: b(.3), ManyParams: b(.2), DeepLoops: b(.2),
+		Shadow: b(.4), BigInts: b(.3), ManyParams: b(.2), DeepLoops: b(.2), LoopValues: b(.5),
 	}
 }
 
@@ -791,6 +792,20 @@ func (g *G) Stmt(allowCtl bool) string {
 	if g.cost > 15000 {
 		return g.bare(g.Expr(TInt, 3))
 	}
+	if g.inFunc == nil && g.nest == 0 && g.F.GlobalWrites && r.Bool(.06) {
+		return "tmpv" + strconv.Itoa(r.Intn(2)) + " = " + strconv.Itoa(r.Intn(9)) // (re)creates what del()-functions remove
+	}
+	if g.loops == 0 && g.F.LoopValues && r.Bool(.08) {
+		// a counted loop used for its value: the value is the bare loop variable of the last iteration
+		v := g.loopVarName()
+		lo := r.Intn(3)
+		loop := fmt.Sprintf("for %s = %d:%d { %s }", v, lo, lo+1+r.Intn(5), v)
+		if g.inFunc != nil {
+			g.seq++
+			return "u" + strconv.Itoa(g.seq) + " := " + loop
+		}
+		return "println(" + loop + ")"
+	}
 	switch k := r.Intn(20); {
 	case k < 5:
 		return g.assign()
@@ -813,6 +828,13 @@ func (g *G) Stmt(allowCtl bool) string {
 		}
 		return g.printStmt()
 	case k < 18:
+		if g.inFunc != nil && g.F.LoopValues && g.inFunc.Ret == TInt && g.loops > 0 && r.Bool(.5) {
+			for i := len(g.scope) - 1; i >= 0; i-- {
+				if g.scope[i].RO && strings.HasPrefix(g.scope[i].Name, "lv") {
+					return "if " + g.Expr(TBool, 2) + " { return " + g.scope[i].Name + " }"
+				}
+			}
+		}
 		if g.inFunc != nil && r.Bool(.6) {
 			return "if " + g.Expr(TBool, 2) + " { return " + g.Expr(g.inFunc.Ret, 1) + " }"
 		}
@@ -972,6 +994,22 @@ func (g *G) FuncDef() string {
 		g.Funcs = append(g.Funcs, f)
 		f.Cost = 12
 		return fmt.Sprintf("func %s(x, ..) { x + len(..) * %d }", name, 1+r.Intn(5))
+	case g.F.Catch && g.F.GlobalReads && r.Bool(.2):
+		// a callee that fails depending on outer state, and a caller that swallows the failure with catch()
+		if gv, ok := g.varOf(TInt); ok && !shadowed(g.scope, gv) {
+			f.Ret, f.Cost, f.ReadsGlobals = TInt, 30, true
+			g.Funcs = append(g.Funcs, f)
+			inner := "chk_" + name
+			mod := 2 + r.Intn(2)
+			return fmt.Sprintf("%s = func() { if %s %% %d == 0 { error(\"unlucky\", %s) }; %s }; func %s() { r9 := catch(%s()); if r9.err { 0 - 1 } else { r9.value * 2 } }", inner, gv, mod, gv, gv, name, inner)
+		}
+		fallthrough
+	case g.F.GlobalWrites && g.F.GlobalReads && r.Bool(.1):
+		// deleting an outer binding from inside a function (whether it exists or not varies over the session)
+		f.Ret, f.Cost, f.ReadsGlobals, f.WritesGlobals = TBool, 10, true, true
+		g.Funcs = append(g.Funcs, f)
+		tv := "tmpv" + strconv.Itoa(r.Intn(2))
+		return fmt.Sprintf("func %s() { del(%s) }", name, tv)
 	case g.F.Closures && r.Bool(.25):
 		return g.closureDef(f)
 	case g.F.Lambdas && g.F.Arrays && r.Bool(.12):
